@@ -1,5 +1,6 @@
 import Originium.Model.Filter
 import Originium.Model.LSM
+import Originium.Model.FilterTie
 /-! # C16 — the bloom filter never denies a key it was built from -/
 namespace Props
 open Key VKey Levels
@@ -31,8 +32,28 @@ theorem C16_user_key (u : Bytes) (ts : Nat) : parseKey? (keyWithTs u ts) = some 
 example : Filter.contains (fun i key => i + key.length) (Filter.build (fun i key => i + key.length) 7 3 [[1], [2, 3]]) [2, 3] = true := by
   decide
 
+/-- the Go code itself (`filter.Build`, `Filter.Add`, `Filter.Contains`, translated from /repo on every run): for every hash
+    family, every number of hash functions, every bit count `m > 0` (what `New` computes for a non-empty entry list), every
+    projection `ukey` (the code uses `types.ParseKey`) and every entry list, the built filter contains the user key of
+    every entry -/
+theorem C16_code_no_false_negative {ε : Type} (h : Nat → Bytes → Nat) (ukey : ε → Bytes) (m k : Nat) (hm : 0 < m) (kvs : List ε) :
+    ∀ e ∈ kvs, GenFilter.contains h (List.range k) (GenFilter.build h ukey m k kvs) (ukey e) = true :=
+  FilterTie.code_no_false_negative h ukey m k hm kvs
+
+/-- the translated code is the model: same bits, same answers -/
+theorem C16_code_is_model {ε : Type} (h : Nat → Bytes → Nat) (ukey : ε → Bytes) (m k : Nat) (kvs : List ε) (key : Bytes) :
+    GenFilter.build h ukey m k kvs = (Filter.build h m k (kvs.map ukey)).bits ∧
+      GenFilter.contains h (List.range k) (GenFilter.build h ukey m k kvs) key =
+        Filter.containsLoop h { bits := (Filter.build h m k (kvs.map ukey)).bits, k := k } key (List.range k) :=
+  ⟨FilterTie.build_eq h ukey m k kvs, by rw [FilterTie.build_eq, FilterTie.contains_eq h _ _ k]⟩
+
+example : GenFilter.contains (fun i (key : Bytes) => i + key.length) (List.range 3)
+    (GenFilter.build (fun i (key : Bytes) => i + key.length) id 7 3 [[1], [2, 3]]) [2, 3] = true := by decide
+
 #print axioms C16_no_false_negative
 #print axioms C16_monotone
+#print axioms C16_code_no_false_negative
+#print axioms C16_code_is_model
 #print axioms C16_rebuilt
 #print axioms C16_user_key
 end Props
